@@ -72,9 +72,22 @@ theorem quiet_connectionLost {w : World} (h : Halted w) : Quiet w (connectionLos
     simp only [andThen]
     split
     · quiet_rfl
-    · split
-      · rw [mInput_halted (by exact h.1)]; quiet_rfl
-      · rw [mInput_halted (by exact h.1)]; quiet_rfl
+    · generalize hW : ({ w with tt := w.tt.map fun _ => TrafficTimer.State.no_connection, timer := t, conn := none } : World) = W
+      have hWq : Quiet w W := by rw [← hW]; quiet_rfl
+      obtain ⟨op, prs, e2⟩ := pauseAll_same W
+      rcases hp : pauseAll W with ⟨x, er2⟩
+      rw [hp] at e2
+      simp only at e2
+      subst e2
+      have hx : Quiet w ({ W with outPaused := op, prods := prs } : World) := hWq.trans ⟨rfl, rfl, rfl, rfl, rfl, rfl⟩
+      cases er2 with
+      | some er2 => exact hx
+      | none =>
+        dsimp only
+        have hms : ({ W with outPaused := op, prods := prs } : World).ms = .STOPPED := hx.ms.trans h.1
+        split
+        · rw [mInput_halted hms]; exact hx
+        · rw [mInput_halted hms]; exact hx
 
 theorem quiet_tOuts (k : Terminator.Output → World → Res) (hk : ∀ o v, Halted v → Quiet v (k o v).1)
     (os : List Terminator.Output) : ∀ v : World, Halted v → Quiet v (tOuts k os v).1 := by
@@ -107,11 +120,16 @@ theorem quiet_tInput (fuel : Nat) : ∀ (i : Terminator.Input) (v : World), Halt
         · quiet_rfl
         · quiet_rfl
         · quiet_rfl
-        · show Quiet u (if u.hasMgr = true then andThen (mInput .k_stop "" 0 u) (fun w1 => (whenStopped w1, none))
-                  else tInput f .stoppedD u).1
+        · show Quiet u (if (stopCoop u).hasMgr = true then andThen (mInput .k_stop "" 0 (stopCoop u)) (fun w1 => (whenStopped w1, none))
+                  else tInput f .stoppedD (stopCoop u)).1
+          obtain ⟨b, eb⟩ := stopCoop_same u
+          rw [eb]
+          have hq : Quiet u ({ u with coopStopped := b } : World) := ⟨rfl, rfl, rfl, rfl, rfl, rfl⟩
+          have hu' : Halted ({ u with coopStopped := b } : World) := hq.halted hu
+          refine hq.trans ?_
           split
-          · rw [mInput_halted hu.1]; exact Quiet.refl _
-          · exact ih _ _ hu
+          · rw [mInput_halted hu'.1]; exact Quiet.refl _
+          · exact ih _ _ hu'
       case hh => exact ⟨hv.1, hv.2⟩
       quiet_rfl
 
@@ -256,6 +274,18 @@ theorem quiet_step {v : World} (hv : Halted v) (e : Ev) : Quiet v (step v e).1 :
     · split
       · exact quiet_connectAs _ v
       · quiet_rfl
+  | producer pull i =>
+    simp only [step]
+    split
+    · split
+      · quiet_rfl
+      · rw [ofres]
+        unfold registerProducer
+        dsimp only
+        split
+        · split <;> quiet_rfl
+        · quiet_rfl
+    · quiet_rfl
   | term i => simp only [step, ofres]; exact quiet_tInput _ _ _ hv
   | turn =>
     simp only [step, turn]
